@@ -267,7 +267,8 @@ impl<'a> Gen<'a> {
             Some(rp) => (rp * page_size / 4).min(48 * 1024),
             None => 48 * 1024,
         };
-        Cfg { page_size, region_pages, cache, deep_oracles: self.prof.deep }
+        let freed_chunk = if self.prof.page_4k_only { 0 } else { *self.rng.pick(&[0u32, 0, 0, 1, 2, 3, 5, 16]) };
+        Cfg { page_size, region_pages, cache, deep_oracles: self.prof.deep, freed_chunk }
     }
 
     /// adopt an existing configuration (for workloads continuing on an existing database)
